@@ -108,13 +108,13 @@ impl G<'_> {
                 self.lines.push(format!(": >{f}"));
             }
             15 | 16 => {
-                let d = *self.rng.pick(&["d1", "d1/d2", "..", "/", "missing", "f0", "-", "../d1", ".", "d1/../d1/d2", "$OLDPWD"]);
+                let d = *self.rng.pick(&["d1", "d1/d2", "..", "/", "missing", "f0", "-", "../d1", ".", "d1/../d1/d2", "$OLDPWD", "-P ..", "-P d1/..", "-P ./d1/./d2", "-P d1/d2/../.."]);
                 self.lines.push(format!("cd {d}; echo \"st=$? pwd=$PWD old=$OLDPWD\""));
                 if self.rng.chance(40) {
-                    self.lines.push("pwd".into());
+                    self.lines.push(if self.rng.chance(50) { "pwd".into() } else { "pwd -P".into() });
                 }
                 self.moved = true;
-                if !matches!(d, "d1" | "d1/d2" | "." | "d1/../d1/d2" | "missing" | "f0") {
+                if !matches!(d, "d1" | "d1/d2" | "." | "d1/../d1/d2" | "missing" | "f0" | "-P ./d1/./d2") {
                     // come back into the tree: its surroundings differ between the two systems
                     self.lines.push("cd \"$HERE\"".into());
                 }
@@ -213,6 +213,11 @@ impl G<'_> {
                 let n = self.fd();
                 self.lines.push(format!("while read -r l; do echo \"l=$l\"; done <&{n}; echo \"st=$?\""));
             }
+            29 if self.rng.chance(50) => {
+                let how = *self.rng.pick(&["-P", "-L", ""]);
+                self.lines.push(format!("cd {how} \"$HERE\"/{}; echo \"st=$? len=${{#PWD}}\"; pwd -P | relay >\"$HERE\"/pwd.out; echo \"st=$?\"; pwd -L >/dev/null; echo \"st=$?\"; cd \"$HERE\"", long_chain()));
+                self.moved = true;
+            }
             30 | 31 => {
                 // a descriptor kept open across a truncation or replacement of its file
                 let (n, f) = (self.fd(), self.file());
@@ -261,13 +266,30 @@ fn gen_script(rng: &mut Rng) -> (String, Vec<&'static str>) {
         g.statement();
     }
     // descriptor limit: every allocation at the boundary
-    if g.rng.chance(15) {
+    if g.rng.chance(20) {
         let k = g.rng.range(12, 18);
         g.lines.push(format!("ulimit -n {k}; echo \"st=$?\"; ulimit -n"));
         for d in [k - 1, k, k + 1] {
             g.lines.push(format!("command echo x {d}>lim{d}; echo \"st=$?\""));
         }
         g.lines.push(format!("command exec {}>&1; echo \"st=$?\"", k));
+        if g.rng.chance(60) {
+            // pipes when only one or two descriptors are free; a failed pipe ends the script, so the
+            // follow-up that needs a descriptor runs in the EXIT trap
+            // leave zero, one or two descriptors free below the limit
+            let leave = g.rng.below(3) as i64;
+            for d in 3..(k as i64 - leave) {
+                if !g.fds.contains(&(d as u32)) {
+                    g.lines.push(format!("exec {d}</dev/null"));
+                }
+            }
+            g.lines.push("trap 'echo atexit >lim-exit; echo \"bye st=$?\"' EXIT".into());
+            g.lines.push(match g.rng.below(3) {
+                0 => "echo a | relay | relay; echo \"st=$?\"".to_string(),
+                1 => "x=$(echo a); echo \"x=$x st=$?\"".to_string(),
+                _ => "echo a | relay; echo \"st=$?\"; x=$(echo b | relay); echo \"x=$x st=$?\"".to_string(),
+            });
+        }
         g.features.push("ulimit");
     }
     // the end of the script
@@ -290,8 +312,16 @@ fn gen_script(rng: &mut Rng) -> (String, Vec<&'static str>) {
 
 type Tree = BTreeMap<String, String>;
 
+/// six nested directories with 200-byte names: a working directory whose absolute path is longer
+/// than 1024 bytes (the first buffer size of a typical getcwd loop)
+fn long_chain() -> &'static str {
+    static CHAIN: std::sync::OnceLock<String> = std::sync::OnceLock::new();
+    CHAIN.get_or_init(|| (0..6).map(|i| format!("{}{}", i, "L".repeat(199))).collect::<Vec<_>>().join("/"))
+}
+
 fn initial_tree() -> Vec<(&'static str, Option<&'static [u8]>)> {
     vec![
+        (long_chain(), None),
         ("d1", None),
         ("d1/d2", None),
         ("f0", Some(b"first line\nsecond line\nthird\n")),
